@@ -65,6 +65,8 @@ def check_C18(ctx, unit, nbits):
     # ... and of the bitset's word buffer, in every instantiated size (N / 64, buffer_size - 1 are constants there)
     check_const_subscripts(ctx, unit, [BS], rule="B1.const-subscript")
     ctx.rule("I.word-count", "bitset<N> stores exactly ceil(N / 64) words (decided on the record layout of each instantiated size)", 1)
+    ctx.rule("E.equal-covers-words", "bitset::operator== compares every word of the buffer (decided per instantiated size: index "
+             "loops with their constant bounds and constant subscripts cover [0, ceil(N / 64)))", 1)
     ctx.rule("I.bitset-ctor", "every bitset constructor writes every word of the buffer, and one that stores a caller value "
              "masks the bits at and beyond N afterwards", 2)
     ctx.rule("I.mask-after-dirty-write", "every bitset member that writes a word with ~x, x << k or a caller value calls "
@@ -97,6 +99,45 @@ def check_C18(ctx, unit, nbits):
                  "%d words for %d bits (ceil(N / 64) = %d)%s" % (ext, nbits, (nbits + 63) // 64,
                                                                 "" if ext == (nbits + 63) // 64 else
                                                                 ": the surplus word lies wholly at or beyond bit N and is never masked"), None)
+        # operator== looks at every word: the word indices it compares (index loops with constant bounds in this
+        # instantiation, constant subscripts) cover [0, word count)
+        for f in [g_ for g_ in fns if g_.name == "operator==" and g_.blocks]:
+            covered = set()
+            unknown = False
+            for n in f.all_nodes():
+                if n.kind != "ArraySubscriptExpr" or not (path(n.children[0]) and path(n.children[0])[-1] == "buffer"):
+                    continue
+                ix = std_unwrap(n.children[1])
+                c = ix.cv()
+                if c is None:
+                    c = flow.const_fold(f, n.children[1])
+                if c is not None:
+                    covered.add(int(c))
+                    continue
+                if ix.kind == "DeclRefExpr" and ix.get("local"):
+                    rng = None
+                    for lp in flow.natural_loops(f):
+                        ind = flow.induction(f, lp).get(ix.d["d"])
+                        if not ind or ind.get("init") is None or "bound" not in ind:
+                            continue
+                        lo = std_unwrap(ind["init"]).cv()
+                        op_, bn = ind["bound"]
+                        hi = (std_unwrap(bn).cv() if bn is not None else None)
+                        if hi is None and bn is not None:
+                            hi = flow.const_fold(f, bn)
+                        if lo is not None and hi is not None and op_ in ("<", "<=", "!="):
+                            rng = range(int(lo), int(hi) + (1 if op_ == "<=" else 0))
+                    if rng is not None:
+                        covered |= set(rng)
+                        continue
+                unknown = True
+            if unknown:
+                ctx.inst("E.equal-covers-words", "%s::operator==%s" % (BS, tag), True, f.loc, "word indices not all constant in this form: not decided", f, nontrivial=False)
+            else:
+                miss = sorted(set(range(ext)) - covered)
+                ctx.inst("E.equal-covers-words", "%s::operator==%s" % (BS, tag), not miss, f.loc,
+                         "word(s) %s of %d are never compared: bitsets that differ only there compare equal" % (miss, ext) if miss else
+                         "compares words %s" % sorted(covered), f)
         masks = [f for f in fns if f.name == "mask_last_bit"]
         mask_did = {m.did for m in masks}       # may be empty: the masking statement can be spelled out in place
         last_word = nbits // 64
@@ -569,6 +610,38 @@ def check_C18(ctx, unit, nbits):
                     if not holds:
                         problems.append("operator() refills the state when %s %s %s, which is not established when seed() returns: "
                                         "the first draws after re-seeding come from the old state" % want)
+            # ... and starts from nothing: no member is read (a compound assignment, or a member function that reads it)
+            # before seed() has assigned it on that path -- re-seeding must not carry the old stream over
+            byd_ = {g_.did: g_ for g_ in unit.functions}
+
+            def reads_of(g_):
+                out_ = set()
+                for y in g_.all_nodes():
+                    if y.kind == "MemberExpr" and path(y) and len(path(y)) >= 2 and path(y)[0] == "this" and path(y)[1] in fields:
+                        par = g_.parent(y)
+                        if par is not None and par.kind == "BinaryOperator" and par.op == "=" and par.children[0].id == y.id:
+                            continue
+                        out_.add(path(y)[1])
+                return out_
+            stale = set()
+
+            def tr2(n, st):
+                w = write_of(n)
+                if n.kind == "CompoundAssignOperator" or (n.kind == "UnaryOperator" and n.op in ("++", "--")):
+                    if w and w[0] and w[0][0] == "this" and len(w[0]) >= 2 and w[0][1] in fields and w[0][1] not in st:
+                        stale.add(w[0][1])
+                if n.kind in ("CXXMemberCallExpr", "CXXOperatorCallExpr") and n.callee and n.callee.get("did") in byd_ and not n.d.get("inlined"):
+                    o = n.child("obj") if n.kind == "CXXMemberCallExpr" else (n.args[0] if n.args else None)
+                    if o is not None and path(o) == ("this",):
+                        for fld_ in reads_of(byd_[n.callee["did"]]):
+                            if fld_ not in st:
+                                stale.add(fld_)
+                if w and n.kind in ("BinaryOperator", "CtorInit") and w[0] and w[0][0] == "this" and len(w[0]) >= 2 and w[0][1] in fields:
+                    return [st | {w[0][1]}]
+                return [st]
+            flow.run(f, [frozenset()], tr2, None)
+            if stale:
+                problems.append("seed() reads member(s) %s before it has assigned them: a re-seeded generator continues from its old state" % sorted(stale))
             ctx.inst("I.seed-complete", f.sig, not problems, f.loc, "; ".join(problems) if problems else
                      "writes all of %s on every path%s" % (fields, "; refill condition of operator() holds at exit" if cls.endswith("mt19937") else ""), f)
     for f in unit.functions:
@@ -700,11 +773,19 @@ def check_concat(ctx, unit):
             if xs.kind == "DeclRefExpr" and RA._reassigned(f, xs.d["d"]) or (xs.kind == "DeclRefExpr" and any(
                     n_.kind == "UnaryOperator" and n_.op in ("++", "--") and std_unwrap(n_.children[0]).kind == "DeclRefExpr"
                     and std_unwrap(n_.children[0]).d["d"] == xs.d["d"] for n_ in f.events())):
-                key = xs.id
-                if key not in _envs:
-                    _envs[key] = lockstep_env(f, xs, base_leaf)
-                if xs.d["d"] in _envs[key]:
-                    return _envs[key][xs.d["d"]]
+                # (only variables that are stepped INSIDE a loop run in lock-step with its counter; an offset that is
+                # advanced between the loops -- `at = copy_one(res, at, part)` -- is followed by the offset analysis below)
+                cyc_ = in_cycle_nodes(f)
+                stepped_in_loop = any(
+                    n_.id in cyc_ and n_.kind in ("UnaryOperator", "BinaryOperator", "CompoundAssignOperator") and n_.children
+                    and std_unwrap(n_.children[0]).kind == "DeclRefExpr" and std_unwrap(n_.children[0]).d["d"] == xs.d["d"]
+                    and (n_.kind != "BinaryOperator" or n_.op == "=") for n_ in f.events())
+                if stepped_in_loop:
+                    key = xs.id
+                    if key not in _envs:
+                        _envs[key] = lockstep_env(f, xs, base_leaf)
+                    if xs.d["d"] in _envs[key]:
+                        return _envs[key][xs.d["d"]]
             return base_leaf(x)
         problems = []
         stores = []
@@ -746,6 +827,11 @@ def check_concat(ctx, unit):
                 if n.kind == "BinaryOperator" and n.op == "=" and std_unwrap(n.children[0]).kind == "DeclRefExpr" \
                         and std_unwrap(n.children[0]).d["d"] == atd:
                     pv = to_poly(n.children[1], base_leaf)
+                    if pv is None:
+                        from .ir import value_leaves as _vl2
+                        lv_ = _vl2(f, n.children[1])        # `at = copy_one(res, at, part)`: what the folded helper returns
+                        if len(lv_) == 1:
+                            pv = to_poly(lv_[0], base_leaf)
                     if pv is not None:
                         rest = pv - Poly.sym("v%d" % atd)
                         if all(k == () for k in rest.t):
